@@ -121,16 +121,17 @@ package core
 //@     allfield(directive.Directive, Parent), allfield(directive.Directive, Children), allelems(*directive.Directive)
 
 // skippedAll(a, c, t): every context from a (inclusive) up to c (exclusive) along the Parent chain is implicit and does not
-// admit a directive of kind t - i.e. exactly the contexts that may "close silently". Abstract predicate; its two
+// admit the directive (of kind t) being placed - i.e. exactly the contexts that may "close silently". Abstract predicate; its two
 // axioms are its inductive definition (reflexive; one more implicit, non-admitting context may be skipped).
 //@ opaque pred skippedAll(a int, c int, t int)
 //@ pred methodWithPath(d *directive.Directive) := directive.isHTTPMethod(d.type_) && d.namedParameters != nil
 //@     && has(d.namedParameters, "Path") && d.namedParameters["Path"] != ""
+// admits(w, d): context w takes d as a child - the context table, except that a URL does not take a method that carries
+// its own path (such a method ends an implicit URL context; inside an explicit URL context it is an error)
+//@ pred admits(w *directive.Directive, d *directive.Directive) := directive.allowedSpec(w.type_, d.type_) && !(methodWithPath(d) && w.type_ == directive.URL)
 //@ pred ctxStop(core *JApiCore, d *directive.Directive, w *directive.Directive, attachedTo *directive.Directive, toRoot bool, failed bool) :=
 //@     ite(w == nil, ite(directive.rootSpec(d.type_), toRoot && !failed, failed),
-//@     ite(directive.allowedSpec(w.type_, d.type_),
-//@         ite(methodWithPath(d) && w.type_ == directive.URL, ite(w.HasExplicitContext, failed, toRoot && !failed),
-//@             !failed && !toRoot && attachedTo == w),
+//@     ite(admits(w, d), !failed && !toRoot && attachedTo == w,
 //@         failed && w.HasExplicitContext))
 
 //@ func (*JApiCore).processContext(core, d, root)
@@ -138,7 +139,7 @@ package core
 //@   requires core != nil && directive.dirOK(d) && root != nil && d.Parent == nil
 //@   axiom forallp(a, skippedAll(a, a, d.type_), skippedAll(a, a, d.type_))
 //@   axiom forallp(a, c, skippedAll(a, c, d.type_), imp(skippedAll(a, c, d.type_) && c != 0
-//@       && !(*directive.Directive)(c).HasExplicitContext && !directive.allowedSpec((*directive.Directive)(c).type_, d.type_),
+//@       && !(*directive.Directive)(c).HasExplicitContext && !admits((*directive.Directive)(c), d),
 //@       skippedAll(a, (*directive.Directive)(c).Parent, d.type_)))
 //@   modifies core.currentContextDirective, *root, allfield(directive.Directive, Parent), allfield(directive.Directive, Children), allelems(*directive.Directive)
 //@   ensures imp(result == nil, core.currentContextDirective == d)
